@@ -9,7 +9,8 @@ CONSTANTS KLabel,      \* C01 (a): single labels over C16 up to this length
           KTwo,        \* C01 (a): two-label names, second size bound (1 or 2)
           KText,       \* C01 (b): texts over T9 up to this length
           KWire,       \* C01 (c): wire strings over W11 up to this length
-          VAlpha       \* C06: alphabet of the triple universe V
+          VAlpha,      \* C06: alphabet of the triple universe V
+          BigK, BigFill \* C06: lengths k of the labels c^k and fill octets of the 253..255-octet names
 
 T1(A) == {<<a>> : a \in A}
 T2(A) == {<<a, b>> : a \in A, b \in A}
@@ -31,13 +32,13 @@ V06 == WithAbs(Rel06(VAlpha))
 
 (* successor / predecessor: labels c^k, names filled up to 253..255 octets *)
 Origins06 == { << <<111>>, <<>> >>, << <<111>>, <<90, 122>>, <<>> >> }       \* o.   o.Zz.
-BigLabels == {Rep(c, k) : c \in A10, k \in {1, 2, 61, 62, 63}}
+BigLabels == {Rep(c, k) : c \in A10, k \in BigK}
 RECURSIVE Fill(_, _)
 Fill(room, f) == IF room > 64 THEN <<Rep(f, 63)>> \o Fill(room - 64, f)
                  ELSE IF room >= 2 THEN <<Rep(f, room - 1)>> ELSE <<>>
 FilledRel(o) ==
     {<<x>> : x \in BigLabels}
-    \cup {<<x>> \o Fill(T - WireLen(o) - Len(x) - 1, f) : x \in BigLabels, T \in {253, 254, 255}, f \in {255, 97, 90}}
+    \cup {<<x>> \o Fill(T - WireLen(o) - Len(x) - 1, f) : x \in BigLabels, T \in {253, 254, 255}, f \in BigFill}
 NeighbourRel(o) == FilledRel(o) \cup Rel06(A10)
 (* <<name, origin>> pairs, names relative and absolute *)
 NeighbourCases == UNION {{<<n, o>> : n \in NeighbourRel(o)} \cup {<<n \o o, o>> : n \in NeighbourRel(o)} : o \in Origins06}
@@ -59,18 +60,48 @@ Texts == {<<>>} \cup UpTo(T9, KText)
 
 (* C01 (c): wire strings over the label-type / pointer byte classes *)
 W11 == {0, 1, 2, 63, 64, 128, 192, 193, 194, 196, 97}
-Wires == {<<>>} \cup UpTo(W11, KWire)
+W8 == {0, 1, 2, 64, 192, 193, 194, 97}
+(* all strings up to length 4 over W11; KWire = 5 adds the 5-octet strings over the 8 classes W8 *)
+Wires == {<<>>} \cup UpTo(W11, Min(KWire, 4)) \cup (IF KWire >= 5 THEN T5(W8) ELSE {})
 
 (* C01 (c) segment level: a wire is a list of segments; <<"L", k>> a label of k octets,
    <<"P", j>> a pointer to the first octet of segment j (1-based; any j, so forward and
    self pointers occur), <<"R">> the root octet.  The driver lays the segments out after
    `base` zero octets, so that names reach 255 / 256 octets and pointers the 0x3FFF limit. *)
 Segs == {<<"R">>} \cup {<<"L", k>> : k \in {1, 62, 63}} \cup {<<"P", j>> : j \in 1..3}
-SegWires == UNION {[1..m -> Segs] : m \in 1..4}
+SegWires == UNION {[1..m -> Segs] : m \in 1..(KWire - 1)}        \* quick: 3 segments, thorough: 4
 LongSegWires ==       \* chains of maximal labels closed by a root or a pointer to segment 1
     {Rep(<<"L", 63>>, 3) \o <<<<"L", k>>, <<"R">>>> : k \in {60, 61, 62}}
     \cup {<<<<"L", 63>>, <<"L", k>>, <<"R">>>> \o Rep(<<"L", 63>>, 2) \o <<<<"P", 1>>>> : k \in {60, 61, 62, 63}}
-SegBases == {0, 16382, 16383, 16384}
+SegBases == {0, 16382, 16383}
+SegLen(s) == IF s[1] = "R" THEN 1 ELSE IF s[1] = "L" THEN s[2] + 1 ELSE 2
+RECURSIVE SegOff(_, _)                     \* offset of segment j (Len + 1: the end) from the base
+SegOff(g, j) == IF j = 1 THEN 0 ELSE SegOff(g, j - 1) + SegLen(g[j - 1])
+SegTarget(g, base, j) == base + SegOff(g, IF j <= Len(g) THEN j ELSE Len(g) + 1)
+SegOctets(g, base, j) ==
+    LET s == g[j] IN
+    IF s[1] = "R" THEN <<0>>
+    ELSE IF s[1] = "L" THEN <<s[2]>> \o Rep(97, s[2])
+    ELSE LET tg == SegTarget(g, base, s[2]) IN <<192 + (tg \div 256), tg % 256>>
+RECURSIVE SegFlat(_, _, _)
+SegFlat(g, base, j) == IF j > Len(g) THEN <<>> ELSE SegOctets(g, base, j) \o SegFlat(g, base, j + 1)
+SegEncodable(g, base) == \A j \in 1..Len(g) : g[j][1] = "P" => SegTarget(g, base, g[j][2]) <= 16383
+(* <<buffer, start offset>> : every encodable segment wire at every base, decoded from every segment *)
+(* (no UNION over many sets here: TLC's UNION is quadratic in the number of elements) *)
+SegAll == SegWires \cup LongSegWires
+SegCases == {<<[base |-> c[2], tail |-> SegFlat(c[1], c[2], 1)], c[2] + SegOff(c[1], c[3])>> :
+                c \in {d \in {<<g, b, j>> : g \in SegAll, b \in SegBases, j \in 1..6} :
+                          d[3] <= Len(d[1]) /\ SegEncodable(d[1], d[2])}}
+PlainCases == {<<[base |-> 0, tail |-> c[1]], c[2]>> :
+                  c \in {d \in {<<w, s>> : w \in Wires, s \in 0..5} : d[2] <= Len(d[1])}}
+
+(* C01 compression: names written one after the other into one buffer with one table *)
+WLabels == {<<97>>, <<65>>, <<98>>}                                         \* a A b
+WRel == {<<>>} \cup {<<x>> : x \in WLabels} \cup {<<x, y>> : x \in WLabels, y \in WLabels}
+        \cup {<<x, y, z>> : x \in WLabels, y \in WLabels, z \in WLabels}
+WNames == WithAbs(WRel)
+WOrigins == {NoOrigin, Some(Root), Some(<< <<97>>, <<>> >>), Some(<< <<98>>, <<65>>, <<>> >>)}
+WBases == {0, 16376, 16381, 16384}
 
 (* C01 (d): constructor inputs exactly at 63/64 and 255/256 *)
 DLabels == {Rep(97, k) : k \in {1, 2, 61, 62, 63, 64}}
